@@ -264,7 +264,8 @@ def gen_type_unit(rng):
         elif k < 0.62:
             out.append("TYPE\n  %s : INT (1..9);\nEND_TYPE" % n)
         elif k < 0.68:
-            out.append("TYPE\n  %s : INT;\nEND_TYPE" % n)
+            # an alias of another type name of the pool (declared or not); 'T : INT;' is not in the grammar
+            out.append("TYPE\n  %s : %s;\nEND_TYPE" % (n, _case(rng, rng.choice([t for t in TYPE_POOL if t != n]))))
         else:
             out.append("FUNCTION_BLOCK %s\nVAR_INPUT\n  i1 : INT;\nEND_VAR\nEND_FUNCTION_BLOCK" % n)
     lines = ["FUNCTION_BLOCK User", "VAR"]
